@@ -354,7 +354,9 @@ def explore_family(ctx: Ctx, fname: str) -> Result:
                 POLICY.begin("identity")
                 judge("seam-identity", stub_inproc(k, rewriting), {"family": fname, "k": k, "rewriting": rewriting, "history": 0, "policy": ["identity", -1, 0]})
                 npoints = POLICY.n
-                if npoints < 3:
+                if npoints < 1:
+                    # (fewer points than usual is not an error: code that iterates something else than sets is still
+                    # explored through the row-order histories above; only a seam that is never consulted is vacuous)
                     raise HarnessError(f"set-iteration seam consulted only {npoints} times (seam lost)")
                 scheds = [("reverse", -1, 0), ("rotate", -1, 0)] + [("deviate", p, v) for p in range(npoints) for v in range(1, 6 if ctx.quick else 24)]
                 for mode, p, v in scheds:
